@@ -904,8 +904,8 @@ PROPS = {
         prop_file="Properties/C02.v",
         check_module="C02Check",
         theorems={t: [] for t in ["C02_gc_preserves_reachable", "C02_mark_sound", "C02_mark_terminates"]},
-        n_quick=300, n_thorough=3000,
-        gates=["sched=every", "sched=single", "sched=subset", "gc_case", "prog=closures", "prog=stdlib_object_keys",
+        n_quick=420, n_thorough=3000,
+        gates=["prog=host_table_6", "prog=host_table_13", "prog=host_table_29", "sched=every", "sched=single", "sched=subset", "gc_case", "prog=closures", "prog=stdlib_object_keys",
                "prog=inline_closure", "prog=overwrite_equal_keys"],
         rule="for each program of the library (see C05, plus key functions returning fresh objects): a baseline run, "
              "then runs with a collection forced at every allocation, at each single allocation index (quick: all "
